@@ -19,6 +19,7 @@ SPEC_DIR = os.path.join(os.path.dirname(os.path.dirname(os.path.abspath(__file__
 
 class Unit:
     def __init__(self, name, repo):
+        os.environ['VERIF_REPO_UNDER_TEST'] = repo   # spec generators that follow the code where a property leaves a choice
         self.name = name
         self.repo = repo
         self._srcs = {}
